@@ -58,6 +58,41 @@ def tau2_case(col, rng, change_a, rank_def, scale=1.0, tiny_eig=False):
     col.add(None)
 
 
+def two_smooths_case(col, rng):
+    """two non-parametric smooths in ONE model (location and scale predictor) with different penalties, hyper-parameters and coefficients: each
+    variance kernel draws from ITS OWN full conditional, whichever kernel ran first"""
+    n, p, q = 15, 5, 4
+    b = DistRegBuilder()
+    b.add_response(rng.normal(size=n).astype(np.float32), tfd.Normal)
+    b.add_predictor("loc", tfb.Identity)
+    b.add_predictor("scale", tfb.Exp)
+    K1 = (np.diff(np.eye(p), n=2, axis=0).T @ np.diff(np.eye(p), n=2, axis=0)).astype(np.float32)
+    K2 = (3.0 * np.eye(q)).astype(np.float32)
+    b.add_np_smooth(rng.normal(size=(n, p)).astype(np.float32), K1, a=0.5, b=0.3, predictor="loc", name="sloc")
+    b.add_np_smooth((0.1 * rng.normal(size=(n, q))).astype(np.float32), K2, a=4.0, b=2.5, predictor="scale", name="sscale")
+    model = b.build_model()
+    model.vars["sloc_beta"].value = jnp.asarray(rng.normal(size=p), jnp.float32)
+    model.vars["sscale_beta"].value = jnp.asarray(0.3 * rng.normal(size=q), jnp.float32)
+    iface = gs.LieselInterface(model)
+    kernels = {}
+    for nm in ("sscale", "sloc"):
+        kernels[nm] = tau2_gibbs_kernel(model.groups()[nm])
+        kernels[nm].set_model(iface)
+    state = model.state
+    bad = None
+    for nm, K in (("sscale", K2), ("sloc", K1), ("sscale", K2)):
+        a, bb = float(model.vars[f"{nm}_a"].value), float(model.vars[f"{nm}_b"].value)
+        beta = np.asarray(model.vars[f"{nm}_beta"].value, np.float64)
+        a_star, b_star = a + np.linalg.matrix_rank(K) / 2, bb + 0.5 * beta @ K.astype(np.float64) @ beta
+        key = jax.random.PRNGKey(int(rng.integers(0, 2**31)))
+        draw = float(kernels[nm]._transition_fn(key, state)[f"{nm}_tau2"])
+        want = b_star / float(jax.random.gamma(key, jnp.float32(a_star)))
+        if not np.isclose(draw, want, rtol=2e-3):
+            bad = f"smooth {nm}: draw {draw}, but its own full conditional IG(a*={a_star}, b*={b_star}) with that key gives {want}"
+            break
+    col.add(None if bad is None else {"sig": "native::gibbs::tau2_two_smooths", "what": bad, "input": {"smooths": ["sloc (loc, rank-deficient RW2 penalty, a=0.5, b=0.3)", "sscale (scale, 3*I, a=4, b=2.5)"]}})
+
+
 def discrete_case(col, rng):
     values = [0.0, 1.0, 2.5]
     probs = [0.2, 0.5, 0.3]
@@ -122,6 +157,43 @@ def dependent_prior_case(col, rng):
             return
     want = [values[int(orig(kk, jnp.asarray(joint, jnp.float32)))] for kk in keys]
     col.add(None if draws == want else {"sig": "native::gibbs::finite_discrete_dependent_prior", "what": f"draws {draws} differ from outcomes[categorical(key, joint log-densities)] = {want}", "input": inp})
+
+
+def large_grid_case(col, rng, n_out):
+    """an outcome grid with many points (150 / 128 / 300): one category per outcome - the logits handed to the categorical sampler are the joint
+    log-density at each outcome (up to a constant), nothing more and nothing less, and the draw is outcomes[index]"""
+    values = np.linspace(-3.0, 3.0, n_out).astype(np.float32)
+    probs = np.exp(-0.5 * (values / 2.0) ** 2)
+    probs = (probs / probs.sum()).astype(np.float32)
+    grid = lsl.Var(values, name="grid")
+    k = lsl.Var(values[0], lsl.Dist(tfd.FiniteDiscrete, outcomes=grid, probs=probs), name="k")
+    y = lsl.obs(np.array([2.6, 3.1], np.float32), lsl.Dist(tfd.Normal, loc=k, scale=1.0), name="y")
+    model = lsl.GraphBuilder().add(y).build_model()
+    kernel = finite_discrete_gibbs_kernel("k", model)
+    iface = gs.LieselInterface(model)
+    state = model.state
+    joint = np.array([float(iface.log_prob(iface.update_state({"k": jnp.float32(v)}, state))) for v in values], dtype=np.float64)
+    seen = []
+    orig = jax.random.categorical
+
+    def spy(key, logits, *a, **kw):
+        seen.append(np.asarray(logits, dtype=np.float64))
+        return orig(key, logits, *a, **kw)
+
+    jax.random.categorical = spy
+    try:
+        key = jax.random.PRNGKey(int(rng.integers(0, 2**31)))
+        draw = float(kernel._transition_fn(key, state)["k"])
+    finally:
+        jax.random.categorical = orig
+    inp = {"number_of_outcomes": n_out}
+    if not seen or seen[0].shape != (n_out,) or not np.allclose(seen[0] - seen[0][0], joint - joint[0], atol=2e-3):
+        shp = seen[0].shape if seen else None
+        col.add({"sig": "native::gibbs::finite_discrete_large_grid", "what": f"{n_out} outcomes: the categorical sampler received logits of shape {shp}; expected one logit per outcome equal to the joint log-density "
+                 "(up to a constant)", "input": inp})
+        return
+    want = float(values[int(orig(key, jnp.asarray(seen[0], jnp.float32)))])
+    col.add(None if draw == want else {"sig": "native::gibbs::finite_discrete_large_grid", "what": f"{n_out} outcomes: draw {draw}, outcomes[categorical(key, logits)] = {want}", "input": inp})
 
 
 def tiny_scale_case(col, rng):
@@ -226,6 +298,8 @@ def bernoulli_case(col, rng, explicit):
 def bounded(tier, seed):
     rng = np.random.default_rng(seed)
     col = util.Collector()
+    from rtc.c01 import CORE_RULE, core_native
+    core_native(col, seed)
     reps = 1 if tier == "quick" else 5
     n = 0
     for _ in range(reps):
@@ -242,6 +316,17 @@ def bounded(tier, seed):
             except Exception as e:
                 col.add({"sig": f"native::gibbs::exception::{type(e).__name__}", "what": str(e)[:200], "input": kw})
             n += 1
+        for n_out in (150, 128) if tier == "quick" else (150, 128, 129, 300, 1000):
+            try:
+                large_grid_case(col, rng, n_out)
+            except Exception as e:
+                col.add({"sig": f"native::gibbs::exception::{type(e).__name__}", "what": str(e)[:200], "input": {"scenario": "large outcome grid", "n": n_out}})
+            n += 1
+        try:
+            two_smooths_case(col, rng)
+        except Exception as e:
+            col.add({"sig": f"native::gibbs::exception::{type(e).__name__}", "what": str(e)[:200], "input": {"scenario": "two smooths in one model"}})
+        n += 1
         try:
             discrete_case(col, rng)
         except Exception as e:
@@ -269,8 +354,8 @@ def bounded(tier, seed):
                 col.add({"sig": f"native::gibbs::exception::{type(e).__name__}", "what": str(e)[:200], "input": {"kernel": "finite_discrete", "bernoulli": True, "explicit": explicit}})
             n += 1
     return {"evaluations": col.evals, "distinct_nontrivial": n,
-            "rule": (f"BOUNDED: DistRegBuilder models with a full-rank and a rank-deficient (second-difference) penalty, hyperparameters a, b left as built or changed AFTER the kernel was created, plus a penalty scaled by 1e-7 and a full-rank penalty with one eigenvalue of 1e-8 (rank by matrix_rank vs. eigenvalue thresholds): "
+            "rule": (CORE_RULE + "; " + f"BOUNDED: DistRegBuilder models with a full-rank and a rank-deficient (second-difference) penalty, hyperparameters a, b left as built or changed AFTER the kernel was created, plus a penalty scaled by 1e-7 and a full-rank penalty with one eigenvalue of 1e-8 (rank by matrix_rank vs. eigenvalue thresholds): "
                      "the kernel's draw for a fixed key equals b*/gamma(key, a*) with a* = a + rank/2, b* = b + beta'K beta/2 from the state, and model log-density minus log IG(a*, b*) is constant "
-                     "over a tau2 grid; finite-discrete kernel on k ~ FiniteDiscrete with a downstream Normal likelihood: draw = outcomes[categorical(key, joint log-densities)], eager and jit; a model in which the discrete variable parameterises the prior of a parameter and the distribution of an unflagged variable (logits captured at jax.random.categorical and compared with the joint log-density up to a constant); the same for a Bernoulli variable with derived and with explicitly given (unsorted) outcomes. "
+                     "over a tau2 grid; two smooths with different penalties and hyper-parameters in one model, kernels used in both orders; finite-discrete kernel on outcome grids of 150 / 128 points (one logit per outcome, captured at the sampler); finite-discrete kernel on k ~ FiniteDiscrete with a downstream Normal likelihood: draw = outcomes[categorical(key, joint log-densities)], eager and jit; a model in which the discrete variable parameterises the prior of a parameter and the distribution of an unflagged variable (logits captured at jax.random.categorical and compared with the joint log-density up to a constant); the same for a Bernoulli variable with derived and with explicitly given (unsorted) outcomes. "
                      f"Both kernels also through GibbsKernel.transition with integer start values (stored value = draw). The sampling distributions themselves are not tested (sampler primitives trusted). seed={seed}, {reps} repetition(s)."),
             "samples": [{"hyperparameters_changed_after_kernel_creation": True, "rank_deficient": True}], "exhaustive": False, "violations": col.violations}
